@@ -250,7 +250,8 @@ func applyIfExistsConfig(t rel.Tuple, dir string, fs afero.Fs, dryRun bool) (err
 			return err
 		}
 		if dryRun {
-			return nil
+			// the replacement is written after the removal: validate it against an empty file system
+			return applyFilesFields(t, dir, afero.NewMemMapFs(), true)
 		}
 		if err := fs.RemoveAll(dir); err != nil {
 			return err
